@@ -81,6 +81,7 @@ type Engine struct {
 	phase       int
 	deferCount  int
 	graphs   map[graphKey]*Graph
+	graphBusy map[graphKey]bool
 	pathMemo map[pathKey][]*Alt
 	pathBusy map[pathKey]bool
 	Assume   map[string]bool // condition term string -> assumed truth value
@@ -98,7 +99,7 @@ func NewEngine(p *load.Program) *Engine {
 		memo: map[evalKey]*Term{}, inprog: map[evalKey]bool{},
 		getters: map[*ssa.Function]string{}, clones: map[*ssa.Function]int{}, elemops: map[*ssa.Function]string{},
 		noret: map[*ssa.Function]int{}, writes: map[writesKey][]*Write{},
-		graphs: map[graphKey]*Graph{}, pathMemo: map[pathKey][]*Alt{}, pathBusy: map[pathKey]bool{},
+		graphs: map[graphKey]*Graph{}, graphBusy: map[graphKey]bool{}, pathMemo: map[pathKey][]*Alt{}, pathBusy: map[pathKey]bool{},
 		Assume: map[string]bool{},
 	}
 }
@@ -207,7 +208,9 @@ func (e *Engine) Eval(v ssa.Value, ctx *Ctx) *Term {
 		return t
 	}
 	if e.inprog[k] {
-		// cyclic definition that is not a recognised induction variable
+		// cyclic definition that is not a recognised induction variable;
+		// everything computed from this placeholder is provisional
+		e.deferCount++
 		return e.mk(OpUnknown, "cycle:"+v.Name(), v)
 	}
 	if ctx.depth > 40 {
